@@ -334,7 +334,7 @@ func shards(tier string) []string {
 func run(c *core.Ctx) {
 	var shard int
 	fmt.Sscanf(c.Shard, "corpus/%d", &shard)
-	stride := 3
+	stride := 5
 	if c.Tier == "thorough" {
 		stride = 1
 	}
